@@ -70,6 +70,12 @@ func (c *Ctx) buildCobraModel() *cobraModel {
 			if f := funcOfValue(st.Val); f != nil {
 				if strings.Contains(f.Name(), "$") {
 					funcAlias[f] = "cmd." + g + "." + name
+				} else if _, has := funcAlias[f]; !has && f.Parent() == nil && f.Object() != nil && !f.Object().Exported() && f.Signature.Recv() == nil {
+					// a named function installed as the hook is that hook, whatever it is called
+					switch name {
+					case "RunE", "Run", "PreRunE", "PreRun", "PostRunE", "PostRun", "PersistentPreRun", "PersistentPreRunE", "PersistentPostRun", "PersistentPostRunE":
+						funcAlias[f] = "cmd." + g + "." + name
+					}
 				}
 				switch name {
 				case "RunE", "Run", "PreRunE", "PreRun", "PostRunE", "PostRun":
